@@ -27,7 +27,7 @@ RULE = (
     "Each step is compared with the model. Non-trivial = a rewind after a partial read (0<k<all) or two rewinds, "
     "with overlap or max_read active."
 )
-MUST_HIT = ["thousands_of_reads", "source_already_partly_consumed", "rewind_after_zero_reads", "rewind_twice_in_a_row", "overlap_maxread_partial", "non_recording",
+MUST_HIT = ["blocks_with_equal_crc32", "pause_longer_than_max_read_plus_a_second", "thousands_of_reads", "source_already_partly_consumed", "rewind_after_zero_reads", "rewind_twice_in_a_row", "overlap_maxread_partial", "non_recording",
             "data_before_rewind", "replay_read"]
 ASSUMPTIONS = ["block model of C10"]
 BOUNDS = {"quick": dict(n=400, steps=30), "thorough": dict(n=3000, steps=40)}
@@ -43,6 +43,14 @@ class Interp:
         sr, sw, ch, N = cfg["sr"], cfg["sw"], cfg["ch"], cfg["N"]
         self.bps = sw * ch
         self.data = c10.content(N, self.bps, cfg["salt"])
+        if cfg.get("crc"):
+            # blocks of 16 bytes taken from two different contents that share length and CRC-32
+            from .c07 import CRC_PAIR
+
+            a, b = (bytes.fromhex(x) for x in CRC_PAIR)
+            unit = a + b + b + a + b
+            self.data = (unit * (len(self.data) // len(unit) + 1))[: len(self.data)]
+            self.classes.add("blocks_with_equal_crc32")
         inp, kw, self.paths = c10.make_input(cfg, self.data)
         mr, limit = c10.resolve_max_read(cfg)
         bd, hd = c10.durations(cfg)
@@ -96,6 +104,13 @@ class Interp:
             return
         self.ops.append(op)
         case = self.case()
+        if isinstance(op, list) and op[0] == "pause":
+            # the consumer is slow: real time passes between two operations
+            import time
+
+            time.sleep(op[1])
+            self.classes.add("pause_longer_than_max_read_plus_a_second")
+            return
         with lib_guard(self.case):
             if isinstance(op, list) and op[0] == "read_n":
                 # many reads in one step (deep state); each is checked like a single read
@@ -192,6 +207,11 @@ def config(draw, maxN=50):
     N = draw(st.integers(0, maxN))
     if draw(rarely(10)):
         B, N = 1, draw(st.integers(2050, 2300))  # room for more than 2048 one-sample blocks
+    if draw(rarely(8)):
+        sw, ch, B = draw(st.sampled_from([(2, 1, 8), (4, 2, 2), (2, 2, 4), (1, 2, 8), (4, 1, 4)]))
+        return dict(sr=draw(st.sampled_from([8, 10, 100, 16000])), sw=sw, ch=ch, N=draw(st.integers(2 * B, 12 * B)), B=B, H=None, fb=0, fh=0,
+                    mr=None, kind=draw(st.sampled_from(["bytes", "raw_lazy", "wav_lazy", "buffer", "stdin"])),
+                    how=draw(st.sampled_from(["record", "Recorder"])), salt=0, prepos=0, crc=True)
     return dict(
         sr=draw(st.sampled_from([8, 10, 100, 16000])), sw=draw(st.sampled_from([1, 2, 4])),
         ch=draw(st.integers(1, 2)), N=N, B=B, H=draw(st.one_of(st.none(), st.integers(1, B))),
@@ -251,6 +271,10 @@ def explicit_cases():
         {"cfg": dict(cfg, kind="buffer", prepos=5), "ops": ["read", "read", "rewind", "data", "read", "read", "read"]},
         {"cfg": dict(cfg, how="plain"), "ops": ["read", "data", "rewind", "read"]},
         {"cfg": dict(cfg, H=None, mr=None, kind="wav_lazy"), "ops": ["read"] * 7 + ["rewind", "data"] + ["read"] * 7},
+        {"cfg": dict(cfg, sw=2, ch=1, B=8, H=None, N=80, mr=None, crc=True), "ops": ["read"] * 6 + ["rewind", "data"] + ["read"] * 7 + ["rewind", "data"]},
+        {"cfg": dict(cfg, sw=4, ch=2, B=2, H=None, N=21, mr=[18, 0], crc=True, how="Recorder", kind="raw_lazy"), "ops": ["read"] * 12 + ["rewind", "data"] + ["read"] * 10},
+        {"cfg": dict(cfg, N=40, B=5, H=None, mr=[3, 0]), "ops": ["read", "read", ["pause", 1.6], "rewind", "data", "read", "read", "rewind", "read"]},
+        {"cfg": dict(cfg, N=40, B=5, H=2, mr=[12, 0], how="Recorder"), "ops": ["read", ["pause", 2.4], "read", "read", "rewind", ["pause", 0.3], "data", "read", "read", "read"]},
     ]
 
 
